@@ -111,6 +111,11 @@ def judge_twin(ctx, tag, case, out, twin_out, ops, fi, persistent, ndata, retry_
         ctx.fail(key + "format", "run shorter than the fault-free prefix", [case], [out], twin_out); return
     res, pos, reads, dl, mask = F[jstar]
     op = ops[jstar] if jstar < len(ops) else "?"
+    if res != "ERR:100" and not persistent and [f[:2] for f in F[jstar:]] == [t[:2] for t in T[jstar:]]:
+        # a transient failure may be absorbed inside the call (an internal retry) as long as every result is the
+        # fault-free one: the property only forbids completing with a DIFFERENT result
+        ctx.count(tag + "_one_shot_absorbed")
+        return
     if res != "ERR:100":
         what = "returns %s" % res
         k = "swallowed" if not res.startswith("ERR") else "other-error"
@@ -158,7 +163,7 @@ EVERY_KIND = [b'a="q\\"x" b==c d<=1 e>=2 f!=g h?=i j<k l>m @[x+1]=@y {} #c\n rgb
 def run_text_ops(ctx):
     rng = ctx.rng
     docs = []
-    for _ in range(ctx.scale(60, 1000)):
+    for _ in range(ctx.scale(60, 400)):
         doc = td.gen_fields(rng, rng.choice([1, 2, 3]), rng.randrange(1, 4), params=False)
         docs.append(td.render(doc, rng, rng.choice(td.STYLES)))
     docs = [d for d in docs if len(d) < 400] + EVERY_KIND
@@ -200,7 +205,7 @@ def run_text_ops(ctx):
 def run_bin_ops(ctx):
     rng = ctx.rng
     docs = []
-    for _ in range(ctx.scale(80, 1200)):
+    for _ in range(ctx.scale(80, 500)):
         toks = B.rand_doc(rng)
         d = b"".join(B.enc(t) for t in toks)
         if d and len(d) < 300:
